@@ -50,7 +50,7 @@ def _sel(mod, names, tiers=None):
             out.append(dataclasses.replace(o, tiers=tiers) if tiers else o)
     assert len(out) == len(names), (names, [o.name for o in out])
     return out
-OBLIGATIONS += _sel(_c08, ('C08.O4.next', 'C08.O4.first', 'C08.O4.lookup', 'C07.O1.del', 'C07.O2.gc_bucket_small', 'C06.O2.replace', 'C08.O5.add_plain', 'C06.O3.cds_lfht_add_replace'))
+OBLIGATIONS += _sel(_c08, ('C08.O4.next', 'C08.O4.first', 'C08.O4.lookup', 'C07.O1.del', 'C07.O2.gc_bucket_small', 'C06.O2.replace', 'C08.O5.add_plain', 'C06.O3.cds_lfht_add_replace', 'C08.O7.small.add_helps'))
 OBLIGATIONS += _sel(_c08, ('C08.O4.next_duplicate', 'C08.O5.add_bucket', 'C06.O1.add_unique', 'C07.O2.gc_bucket'), tiers=('thorough',))
 OBLIGATIONS += _sel(_c11, ('C11.O2.lfs_pop_env', 'C11.O2.lfs_push_env', 'C11.O1.lfs_push', 'C11.O1.lfs_pop', 'C11.O1.wfs_pop', 'C11.O1.wfs_pop_all_iter'))
 OBLIGATIONS += _sel(_c12, ('C12.O1.enqueue', 'C12.O1.dequeue', 'C12.O2.dequeue_env'))
